@@ -91,3 +91,47 @@ func vh_C09_invisible() {
 	vDiff(env, forms, "invisible")
 	vReach("invisible")
 }
+
+// vProgRecursion: a self-recursive function whose recursive call sits in
+// every kind of position - tail position (compiled as a jump), a non-final
+// operand of and/or, an operand of arithmetic, a let binding, a non-final
+// statement, a cond test, an argument of a tail self-call - under <= 2
+// wrappers of tail contexts.  Only the call in tail position may be
+// optimised; every other one must be a real call whose result comes back to
+// the place it was called from.
+var vRecursionCores = []string{
+	`(f (- n 1) (+ acc (t n)))`,
+	`(or (f (- n 1) acc) (t n))`,
+	`(and (f (- n 1) (+ acc 1)) (t n))`,
+	`(+ (t n) (f (- n 1) acc))`,
+	`(f (- n 1) (f (- n 2) (+ acc (t n))))`,
+	`(begin (f (- n 1) acc) (t n))`,
+	`(let [y (f (- n 1) acc)] (+ y (t n)))`,
+	`(cond (f (- n 1) 0) (t n) (+ acc (t (* n 10))))`,
+	`(f (- n 1) (or (f (- n 2) 0) (t n)))`,
+	`(or (and (f (- n 1) 0) 7) (f (- n 1) (+ acc (t n))))`,
+	`(t (f (- n 1) (+ acc n)))`,
+}
+
+func vProgRecursion(env *Zlisp) []Sexp {
+	w1 := vC09Wrappers[vChoice("outer", len(vC09Wrappers))]
+	inner := vC09Wrappers
+	if vTier() == 0 {
+		inner = []string{`E`, `(let [z 1] E)`, `(or false E)`}
+	}
+	w2 := inner[vChoice("inner", len(inner))]
+	rec := vRecursionCores[vChoice("core", len(vRecursionCores))]
+	core := []string{`(cond (<= n 0) acc REC)`, `(cond (> n 0) REC acc)`}[vChoice("guard", 2)]
+	body := vReplace(w1, "E", vReplace(w2, "E", vReplace(core, "REC", rec)))
+	n := vInt64("n")
+	vAssume(n >= 0 && n <= 3)
+	return vT(env, `(defn f [n acc] `+body+`) (list (f 9001 9002) (t 77))`, &SexpInt{Val: n}, vSmallInt("acc"))
+}
+
+func vh_C09_positions() {
+	vFormatOpaque(true)
+	env := vEvalEnv(0)
+	vDiff(env, vProgRecursion(env), "positions")
+	vC04AtRest(env, "positions")
+	vReach("positions")
+}
